@@ -102,6 +102,28 @@ fn main() {
                     _ => b.add_file_data_with_encryption(f.data.clone(), &f.name, cfg.method, true, 0),
                 };
             }
+            // listfile layouts other than the builder's own (which lists itself, unencrypted): the layout Blizzard's tools and
+            // StormLib write (user files only), and a self-listing listfile stored encrypted
+            let lfstyle = if cfg.listfile { (idx / 7) % 4 } else { 0 };
+            if lfstyle >= 2 {
+                let mut text = String::new();
+                for f in &files {
+                    text.push_str(&f.name);
+                    text.push_str("\r\n");
+                }
+                if idx % 3 == 0 {
+                    text.push_str("(signature)\r\n");
+                }
+                b = b.listfile_option(wow_mpq::ListfileOption::None);
+                if lfstyle == 2 {
+                    b = b.add_file_data_with_options(text.into_bytes(), "(listfile)", 0x02, false, 0);
+                    c.count("sources_with_listfile_not_listing_itself", 1);
+                } else {
+                    text.push_str("(listfile)\r\n");
+                    b = b.add_file_data_with_options(text.into_bytes(), "(listfile)", 0, true, 0);
+                    c.count("sources_with_encrypted_listfile", 1);
+                }
+            }
             // every third source carries a "(signature)" entry as signed archives do (weak signature block: 8 + 64 bytes)
             if idx % 3 == 0 {
                 b = b.add_file_data_with_options(vec![0u8; 72], "(signature)", 0, false, 0);
@@ -112,7 +134,18 @@ fn main() {
                 c.nontrivial = false;
                 return;
             }
-            check(c, &cfg, &opt, &src, &dst);
+            // every fourth source is embedded behind a 512-aligned prefix of foreign bytes (installer stub / user data)
+            let embedded = idx % 4 == 2;
+            if embedded {
+                if let Ok(bytes) = std::fs::read(&src) {
+                    let mut pre: Vec<u8> = (0..512 * [1usize, 2, 8][(idx as usize / 4) % 3]).map(|i| (i * 31 % 251) as u8 | 0x80).collect();
+                    pre.extend_from_slice(&bytes);
+                    let _ = std::fs::write(&src, pre);
+                    c.count("sources_behind_a_prefix", 1);
+                }
+            }
+            let inputs: BTreeMap<String, Vec<u8>> = files.iter().map(|f| (norm(&f.name), f.data.clone())).collect();
+            check(c, &cfg, &opt, &src, &dst, &inputs, embedded, ["generated", "generated", "not-listing-itself", "encrypted"][lfstyle as usize]);
             let _ = std::fs::remove_file(&src);
             let _ = std::fs::remove_file(&dst);
         });
@@ -135,7 +168,7 @@ fn faithful(dst: &std::path::Path, want: &BTreeMap<String, Vec<u8>>, all: &BTree
     }
 }
 
-fn check(c: &mut Case, cfg: &Cfg, opt: &Opt, src: &std::path::Path, dst: &std::path::Path) {
+fn check(c: &mut Case, cfg: &Cfg, opt: &Opt, src: &std::path::Path, dst: &std::path::Path, inputs: &BTreeMap<String, Vec<u8>>, embedded: bool, lf: &str) {
     // what the source holds, as read independently
     let mut sa = match Archive::open(src) {
         Ok(a) => a,
@@ -168,7 +201,19 @@ fn check(c: &mut Case, cfg: &Cfg, opt: &Opt, src: &std::path::Path, dst: &std::p
             continue; // specials are regenerated or carried; their bytes are not demanded
         }
         if let Ok(d) = sa.read_file(&e.name) {
-            s_content.insert(norm(&e.name), d);
+            // what the source file holds is what was put into it (C01 decides whether the library reads that back); the
+            // library's own reading of the source is only the fallback for names the harness did not add
+            match inputs.get(&norm(&e.name)) {
+                Some(inp) => {
+                    if *inp != d {
+                        c.count("source_reads_differing_from_builder_input", 1);
+                    }
+                    s_content.insert(norm(&e.name), inp.clone());
+                }
+                None => {
+                    s_content.insert(norm(&e.name), d);
+                }
+            }
         }
     }
     drop(sa);
@@ -199,7 +244,7 @@ fn check(c: &mut Case, cfg: &Cfg, opt: &Opt, src: &std::path::Path, dst: &std::p
                         let msg = e.to_string();
                         let why = if msg.contains("count mismatch") { "file-count-mismatch" } else if msg.contains("Content mismatch") { "content-mismatch" } else if msg.contains("missing in target") { "missing-in-target" } else { "other" };
                         c.violate(
-                            format!("verify-rejects-faithful-rebuild|{sv}|{why}|sig={}|ss{}|se{}", listed.iter().any(|e| e.name == "(signature)") as u8, opt.skip_sig as u8, opt.skip_enc as u8),
+                            format!("verify-rejects-faithful-rebuild|{sv}|{why}|listfile={lf}|sig={}|ss{}|se{}", listed.iter().any(|e| e.name == "(signature)") as u8, opt.skip_sig as u8, opt.skip_enc as u8),
                             format!("rebuild with verify=true failed ({msg}) although the same rebuild without verify yields a target holding exactly the listed, non-excluded source files, bit-identical"),
                             json!({"err": msg}),
                         );
@@ -253,7 +298,7 @@ fn check(c: &mut Case, cfg: &Cfg, opt: &Opt, src: &std::path::Path, dst: &std::p
         match trap(|| ta.read_file(n)) {
             Ok(Ok(got)) => {
                 if &got != want {
-                    c.violate(format!("target-content-differs|{sv}->{tgt}|comp={}", opt.comp.map(|x| format!("{x:02x}")).unwrap_or("-".into())), format!("{:?} differs between source and rebuilt target ({} vs {} bytes)", n, want.len(), got.len()), json!({"want": brief(want), "got": brief(&got)}));
+                    c.violate(format!("target-content-differs|{sv}->{tgt}|comp={}{}", opt.comp.map(|x| format!("{x:02x}")).unwrap_or("-".into()), if embedded { "|source-behind-prefix" } else { "" }), format!("{:?} differs between source and rebuilt target ({} vs {} bytes)", n, want.len(), got.len()), json!({"want": brief(want), "got": brief(&got)}));
                 }
             }
             Ok(Err(_)) => {
